@@ -27,11 +27,11 @@ theorem arith_mode {w : String} {e b v : Nat} (m : Mode) (h : arith .checked w e
   subst h2
   unfold arith; simp [h1]
 
-theorem add16_ok {a b v : Nat} : add16 .checked a b = .ok v ↔ a + b < 65536 ∧ v = a + b := by
-  unfold add16 U16; exact arith_checked_ok
+theorem add64_ok {a b v : Nat} : add64 .checked a b = .ok v ↔ a + b < 18446744073709551616 ∧ v = a + b := by
+  unfold add64 U64; exact arith_checked_ok
 
-theorem mul16_ok {a b v : Nat} : mul16 .checked a b = .ok v ↔ a * b < 65536 ∧ v = a * b := by
-  unfold mul16 U16; exact arith_checked_ok
+theorem mul64_ok {a b v : Nat} : mul64 .checked a b = .ok v ↔ a * b < 18446744073709551616 ∧ v = a * b := by
+  unfold mul64 U64; exact arith_checked_ok
 
 theorem add32_ok {a b v : Nat} : add32 .checked a b = .ok v ↔ a + b < 4294967296 ∧ v = a + b := by
   unfold add32 U32; exact arith_checked_ok
@@ -48,31 +48,45 @@ theorem subWrap_mode {bd a b v : Nat} (m : Mode) (h : subWrap .checked bd a b = 
   subst h2
   unfold subWrap; simp [h1]
 
-theorem lenBytes_ok {bits v : Nat} : lenBytes .checked bits = .ok v ↔ bits + 7 < 65536 ∧ v = (bits + 7) / 8 := by
-  unfold lenBytes
-  rw [bind_eq_ok]
-  constructor
-  · rintro ⟨s, hs, hv⟩
-    obtain ⟨h1, h2⟩ := add16_ok.1 hs
-    subst h2
-    simp at hv
-    exact ⟨h1, hv.symm⟩
-  · rintro ⟨h1, h2⟩
-    exact ⟨bits + 7, add16_ok.2 ⟨h1, rfl⟩, by simp [h2]⟩
+/-- `div_ceil(8)` is the rounding of the specification. -/
+theorem divCeil8_eq (bits : Nat) : divCeil8 bits = (bits + 7) / 8 := by
+  unfold divCeil8
+  split <;> omega
 
+theorem lenBytes_ok {bits v : Nat} : lenBytes bits = .ok v ↔ (bits + 7) / 8 < 65536 ∧ v = (bits + 7) / 8 := by
+  unfold lenBytes U16
+  rw [divCeil8_eq]
+  by_cases h : (bits + 7) / 8 < 65536
+  · simp [h]; exact eq_comm
+  · simp [h]
+
+/-- The byte length of a sync manager is either exact or the conversion error — never anything else. -/
+theorem lenBytes_cases (bits : Nat) :
+    ((bits + 7) / 8 < 65536 ∧ lenBytes bits = .ok ((bits + 7) / 8)) ∨
+    (65536 ≤ (bits + 7) / 8 ∧ lenBytes bits = .err .intConv) := by
+  unfold lenBytes U16
+  rw [divCeil8_eq]
+  by_cases h : (bits + 7) / 8 < 65536
+  · left; simp [h]
+  · right; simp [h]; omega
+
+theorem extendLen_ok {a b v : Nat} : extendLen a b = .ok v ↔ a + b < 65536 ∧ v = a + b := by
+  unfold extendLen U16
+  by_cases h : a + b < 65536
+  · simp [h]; exact eq_comm
+  · simp [h]
+
+theorem increment_ok {off bytes v : Nat} :
+    increment .checked off bytes = .ok v ↔ off + bytes < 4294967296 ∧ v = off + bytes := by
+  unfold increment; exact add32_ok
+
+/-- `PdiOffset::increment_byte_aligned` after the fix: the rounding cannot overflow; only the `u32` address can. -/
 theorem incrementByteAligned_ok {off bits v : Nat} :
     incrementByteAligned .checked off bits = .ok v ↔
-      bits + 7 < 65536 ∧ off + (bits + 7) / 8 < 4294967296 ∧ v = off + (bits + 7) / 8 := by
-  unfold incrementByteAligned increment
-  rw [bind_eq_ok]
-  constructor
-  · rintro ⟨s, hs, hv⟩
-    obtain ⟨h1, h2⟩ := lenBytes_ok.1 hs
-    subst h2
-    obtain ⟨h3, h4⟩ := add32_ok.1 hv
-    exact ⟨h1, h3, h4⟩
-  · rintro ⟨h1, h2, h3⟩
-    exact ⟨(bits + 7) / 8, lenBytes_ok.2 ⟨h1, rfl⟩, add32_ok.2 ⟨h2, h3⟩⟩
+      off + (bits + 7) / 8 < 4294967296 ∧ v = off + (bits + 7) / 8 := by
+  unfold incrementByteAligned
+  rw [divCeil8_eq]
+  exact increment_ok
 
 /-! ### exact bit sums -/
 
@@ -88,7 +102,7 @@ theorem sumMappings_ok {acc v : Nat} {l : List Nat} (h : sumMappings .checked ac
   | cons b rest ih =>
     simp only [sumMappings] at h
     obtain ⟨a', ha, hr⟩ := bind_eq_ok.1 h
-    obtain ⟨_, rfl⟩ := add16_ok.1 ha
+    obtain ⟨_, rfl⟩ := add64_ok.1 ha
     have := ih hr
     simp [natSum]; omega
 
@@ -102,8 +116,8 @@ theorem coeSmBitLen_ok {os : List (Nat × Nat)} {acc v : Nat} {l : List CoePdo}
     obtain ⟨pl', h2, h⟩ := bind_eq_ok.1 h
     obtain ⟨acc', h3, h⟩ := bind_eq_ok.1 h
     have e1 := sumMappings_ok h1
-    obtain ⟨_, rfl⟩ := mul16_ok.1 h2
-    obtain ⟨_, rfl⟩ := add16_ok.1 h3
+    obtain ⟨_, rfl⟩ := mul64_ok.1 h2
+    obtain ⟨_, rfl⟩ := add64_ok.1 h3
     have := ih h
     simp only [coeBitsSpec, List.map, natSum] at this ⊢
     rw [this, e1]; simp; omega
@@ -118,8 +132,8 @@ theorem eepromSmBitLen_ok {os : List (Nat × Nat)} {i acc v : Nat} {l : List Pdo
     · rw [if_pos hp] at h
       obtain ⟨l1, h1, h⟩ := bind_eq_ok.1 h
       obtain ⟨acc', h2, h⟩ := bind_eq_ok.1 h
-      obtain ⟨_, rfl⟩ := mul16_ok.1 h1
-      obtain ⟨_, rfl⟩ := add16_ok.1 h2
+      obtain ⟨_, rfl⟩ := mul64_ok.1 h1
+      obtain ⟨_, rfl⟩ := add64_ok.1 h2
       have := ih h
       simp only [eepromBitsSpec] at this ⊢
       rw [this]
